@@ -388,6 +388,52 @@ def rule_loaders(ck):
         (o.ok() if rk is not None and u(rk) == u(mws) else o.fail('the region is built with other magnitudes than those returned'))
 
 
+def rule_quadtree_schema(ck):
+    """quadtree ascii layout: one row per (cell, magnitude); region cell k <-> rate row k needs the quadkeys in the order of
+    first appearance in the file, the region to keep the order it is given, and the rate column reshaped (cells, magnitudes)"""
+    P = ck.prog
+    ck.clause('D5')
+    g = P.func('csep.utils.readers.quadtree_ascii_loader')
+    ex = Expander(P, g)
+    r = [x for x in returns(g) if x.value is not None]
+    if len(r) != 1 or not isinstance(r[0].value, ast.Tuple) or len(r[0].value.elts) != 3:
+        ck.ob('C11-D5.qorder', g, 'return', g.node).unknown('loader does not return (rates, region, magnitudes)')
+        return
+    rates, region, mws = [ex.expand(x) for x in r[0].value.elts]
+    o = ck.ob('C11-D5.qorder', g, 'quadkeys handed to the region: order', r[0])
+    qk = region.args[0] if isinstance(region, ast.Call) and call_name(region) == 'csep.core.regions.QuadtreeGrid2D.from_quadkeys' and region.args else None
+    if qk is None:
+        o.fail('the region is not QuadtreeGrid2D.from_quadkeys(<file quadkeys>, ...)')
+    else:
+        order = order_of(qk)
+        (o.ok('first-appearance order') if order == 'file' else
+         o.fail('the cells of the region are in %s order while the rate rows stay in file order: for a file whose cells are not listed '
+                'in lexicographic quadkey order, cell k and rate row k differ' % (order or 'an unrecognised')))
+    o = ck.ob('C11-D5.qmags', g, 'magnitude edges: order', r[0])
+    mo = order_of(mws)
+    (o.ok('%s order (ascending lower edges of the first cell)' % mo) if mo in ('file', 'sorted') else o.fail('magnitude edges are in an unrecognised order: `%s`' % u(mws)[:80]))
+    o = ck.ob('C11-D5.qreshape', g, 'rates: column and shape', r[0])
+    s_ = rates
+    good = isinstance(s_, ast.Call) and isinstance(s_.func, ast.Attribute) and s_.func.attr == 'reshape'
+    if good:
+        shp = s_.args[0].elts if len(s_.args) == 1 and isinstance(s_.args[0], ast.Tuple) else s_.args
+        src = strip_shape(s_.func.value)
+        kord = kw(s_, 'order')
+        good = len(shp) == 2 and u(shp[0]).startswith('builtins.len(') and 'quadkeys' in u(shp[0]) and u(shp[1]) == 'builtins.len(%s)' % u(mws) \
+            and (kord is None or const_value(kord) == 'C') and isinstance(src, ast.Subscript) and u(src.slice).replace(' ', '').strip('()') == ':,-1'
+    (o.ok('data[:, -1].reshape(cells, magnitudes)') if good else
+     o.fail('the rates are `%s`: the rate column must be reshaped row-major into (number of cells, number of magnitude bins)' % u(rates)[:110]))
+    # the region keeps the order of the quadkeys it is given
+    fq = P.func('csep.core.regions.QuadtreeGrid2D.from_quadkeys')
+    o = ck.ob('C11-D5.qkeep', fq, 'from_quadkeys keeps the given cell order', fq.node)
+    qp = fq.positional_params[1] if fq.positional_params and fq.positional_params[0] in ('cls', 'self') else fq.positional_params[0]
+    bad = [c for c in all_nodes(fq) if isinstance(c, ast.Call) and (callee(P, fq, c) in ('numpy.unique', 'numpy.sort', 'builtins.sorted', 'builtins.set', 'numpy.argsort')
+                                                                    or (isinstance(c.func, ast.Attribute) and c.func.attr == 'sort'))]
+    rebind = [a for a in find_assignments(fq, qp)]
+    (o.fail('from_quadkeys reorders its cells (`%s`): a loader that keeps the rates in file order no longer matches' % u(bad[0] if bad else rebind[0])[:80])
+     if bad or rebind else o.ok('no sort/unique of the quadkeys'))
+
+
 def rule_spacing(ck):
     from . import c01, c02
     ck.clause('D7 (shared C01-D6, C02 kernel)')
@@ -443,4 +489,4 @@ def rule_rank(ck, funcs=None, rule='C11-D8.rank'):
                 o.ok('no rank-sensitive use')
 
 
-RULES = [rule_scaling, rule_schema, rule_lookup, rule_axes, rule_loaders, rule_spacing, rule_rank]
+RULES = [rule_scaling, rule_schema, rule_lookup, rule_axes, rule_loaders, rule_quadtree_schema, rule_spacing, rule_rank]
